@@ -253,6 +253,8 @@ where
                     self.transition(excluded, Event::Signal);
                 }
             }
+            // at most one round of signals per call: nothing carries over
+            self.signal_pending = None;
         }
 
         // only return actions, no None
